@@ -276,6 +276,19 @@ def step (st : St) (line : String) : St × Option String :=
         (st, some ("leak first=" ++ status ++ " oks=" ++ toString (if status == "ok" then n else 0) ++
                    " panics=" ++ toString (if status == "panic" then n else 0) ++ " heap=0 maps=0"))
       | _, _ => (st, some "badval")
+  | ["fload", i, loader, h] =>
+      match i.toNat?.bind (st.types[·]?) with
+      | some t =>
+        let bytes := unhex h.toList
+        let status : String := match loader with
+          | "full" => showRes (fun _ => "") (t.deFull H bytes)
+          | _ =>
+            let l := match loader with | "mem" => Loader.mem | "mmap" => Loader.mmap | _ => Loader.map
+            -- mmap-rs refuses to create a mapping of length zero (both mapping loaders, before any byte is read)
+            if bytes.isEmpty && loader != "mem" then "err other invalid_size"
+            else showRes (fun _ => "") (t.deEps H 0 (regionOf l bytes))
+        (st, some ("fload " ++ status.trimAscii.toString))
+      | none => (st, some "badval")
   | ["alloc", i, r, val] =>
       match i.toNat?.bind (st.types[·]?), r.toNat?, parseVal val with
       | some t, some r, some v =>
